@@ -330,7 +330,8 @@ class Judge:
 
     def judge_slow(self):
         """cases above the time limit: re-run with every run length halved; t(n) <= 5 t(n/2) is (at most) quadratic growth —
-        slow, recorded, not a hang; anything steeper, or a halved case that is itself above the limit, is a violation"""
+        slow, recorded, not a hang; otherwise halved once more: t(n) <= 36 t(n/4) (exponent below 2.6) is still polynomial;
+        anything steeper, or a halved case that is itself above the limit, is a violation"""
         notes = []
         for stream, build, line, ms in self.slow:
             # the measurement above the limit was taken with all cores busy: the request is measured once more on its own and the
@@ -352,6 +353,20 @@ class Judge:
             if o.startswith("ok ") and hm <= LIMIT_MS[build] and ms <= 5 * max(hm, 1):
                 notes.append({"build": build, "request": line[:400], "cpu_ms": ms, "cpu_ms_half_length": hm})
                 print(f"# NOTE slow but polynomial ({build}): {ms} ms, {hm} ms at half the length: {line[:200]}")
+                continue
+            # one halving is a noisy estimate of the growth exponent (cache effects put honest quadratic loops at ratios 4 - 5.5):
+            # before calling it steeper than quadratic, halve once more; quadratic growth gives t(n) / t(n/4) = 16, cubic 64 —
+            # the verdict "polynomial" needs the exponent over the two halvings to stay below 2.6 (ratio <= 36)
+            qm = 10 ** 9
+            if o.startswith("ok ") and hm <= LIMIT_MS[build]:
+                t4 = half.split()
+                t4[10] = ",".join((f"{x.split('*')[0]}*{max(1, int(x.split('*')[1]) // 2)}" if "*" in x else x) for x in t4[10].split(","))
+                oq = vlib.run_lines(vlib.build_harness(build), [" ".join(t4)], nproc=1, timeout=LIMIT_MS[build] // 1000 * 3)[0]
+                dq = dict(x.split("=", 1) for x in oq.split()[1:] if "=" in x) if oq.startswith("ok ") else {}
+                qm = int(dq.get("cpu", dq.get("ms", 10 ** 9)))
+            if qm < 10 ** 9 and ms <= 36 * max(qm, 1):
+                notes.append({"build": build, "request": line[:400], "cpu_ms": ms, "cpu_ms_half_length": hm, "cpu_ms_quarter_length": qm})
+                print(f"# NOTE slow but polynomial ({build}): {ms} ms, {hm} ms at half, {qm} ms at a quarter of the length: {line[:200]}")
             else:
                 sig = f"time: more than {LIMIT_MS[build] // 1000}s in the {build} build and not explained by quadratic growth"
                 ent = self.sites.setdefault(sig, [0, None, set()])
